@@ -245,10 +245,9 @@ extend primaryExpr -> Expr:
 
 {{define "onAfterLexer"}}
 func mustParseInt(s string) int {
-	i, err := "strconv".Atoi(s)
-	if err != nil {
-		panic(`lexer internal error: ` + err.Error())
-	}
+	// The rule lets only digits through, so the one possible failure is a value out of range;
+	// Atoi returns the nearest representable value then, which is kept (the lexer must not panic).
+	i, _ := "strconv".Atoi(s)
 	return i
 }
 {{end}}
